@@ -131,6 +131,18 @@ inline LD gen_mag(vf::Tape & t, vf::Ctx & ctx, double cap, int * cls = nullptr)
   return m;
 }
 
+// time-like coordinate of Galilei: {0, generic in [-m, m], tiny but non-zero 1e-9..1e-2 (either sign)}.
+// (The tiny class was added for seeded change C04-c; class 0 and 1 consume and mean the same as before.)
+inline LD gen_time(vf::Tape & t, double m)
+{
+  const auto c = t.choice(3);
+  if (c == 0) return 0;
+  const LD w = t.sym(m);
+  if (c == 1 || w == 0) return w;
+  const LD mag = std::pow(10.0L, -9.0L + 7.0L * absl_(w) / static_cast<LD>(m));
+  return w < 0 ? -mag : mag;
+}
+
 struct GenOpts
 {
   double max_trans = 1e3;   // translation-like magnitude cap
@@ -425,7 +437,7 @@ struct SpecGalilei
     c.tail(4)       = SpecSO3::gen_quat(t, ctx);
     c.segment(0, 3) = gen_trans(t, 3, o.max_trans);
     c.segment(3, 3) = gen_trans(t, 3, o.max_trans);
-    c(6)            = t.choice(3) == 0 ? 0.0 : t.sym(std::min(o.max_trans, 10.0));
+    c(6)            = gen_time(t, std::min(o.max_trans, 10.0));
     return c;
   }
   static VecL gen_tangent(vf::Tape & t, vf::Ctx & ctx, const GenOpts & o)
@@ -434,7 +446,7 @@ struct SpecGalilei
     a.tail(3)       = SpecSO3::gen_tangent(t, ctx, o);
     a.segment(0, 3) = gen_trans(t, 3, o.max_trans);
     a.segment(3, 3) = gen_trans(t, 3, o.max_trans);
-    a(6)            = t.choice(3) == 0 ? 0.0 : t.sym(std::min(o.max_trans, 10.0));
+    a(6)            = gen_time(t, std::min(o.max_trans, 10.0));
     return a;
   }
 };
